@@ -9,7 +9,6 @@ from lib import vlib, sandbox
 DAEMON_BIN = {"smtpd": "qmail-smtpd", "qmtpd": "qmail-qmtpd", "qmqpd": "qmail-qmqpd"}
 PROTO = {"smtpd": b"SMTP", "qmtpd": b"QMTP", "qmqpd": b"QMQP"}
 TARGETS = ["qmail-smtpd", "qmail-qmtpd", "qmail-qmqpd", "qmail-queue", "qmail-newmrh"]
-ENVKEYS = ["TCPREMOTEHOST", "TCPREMOTEINFO", "TCPREMOTEIP", "TCPLOCALHOST", "TCPLOCALIP", "RELAYCLIENT", "DATABYTES"]
 
 
 def B(x):
@@ -53,6 +52,32 @@ def local_ipv4():
 
 
 # ----------------------------------------------------------------------------------------------- runner
+
+def parse_envelope_strict(b):
+    """qmail-queue.8 envelope: F<sender> NUL (T<recipient> NUL)* NUL.  -> (sender, [recipients]) or None when the stream ends before
+    the extra 0 byte or is malformed.  (sandbox.parse_envelope takes "F<sender> NUL" + EOF for a complete envelope without
+    recipients, which is exactly the truncated case this check has to tell apart.)"""
+    if not b or b[:1] != b"F":
+        return None
+    i = b.find(b"\0")
+    if i < 0:
+        return None
+    sender = b[1:i]
+    i += 1
+    rcpts = []
+    while True:
+        if i >= len(b):
+            return None
+        if b[i] == 0:
+            return sender, rcpts
+        if b[i] != 84:
+            return None
+        j = b.find(b"\0", i)
+        if j < 0:
+            return None
+        rcpts.append(b[i + 1:j])
+        i = j + 1
+
 
 class Obs:
     """What one daemon run did."""
@@ -167,7 +192,7 @@ class Runner:
                 m = re.match(rb"^u(\d+)\0p(\d+)\0", env)
                 se = None
                 if m:
-                    se = sandbox.parse_envelope(env[m.end():] + b"\0")
+                    se = parse_envelope_strict(env[m.end():] + b"\0")
                 commits.append({"msg": msg, "sender": se[0] if se else None, "rcpts": se[1] if se else None, "real": True,
                                 "uid": int(m.group(1)) if m else None, "pid": int(m.group(2)) if m else None})
             ninv = len(snap)
@@ -177,7 +202,7 @@ class Runner:
         commits = []
         for r in recs:
             ok = r.get("commit", False)
-            se = sandbox.parse_envelope(r.get("fd1", b""))
+            se = parse_envelope_strict(r.get("fd1", b""))
             if mode == "lenient":
                 # a queue program that exits 0 even after a truncated envelope: what it has "queued" is what arrived completely
                 ok = r.get("meta", {}).get("exit") == "0" and se is not None
@@ -306,19 +331,6 @@ def smtp_decode(wire):
 
 
 VERBS = {b"helo", b"ehlo", b"mail", b"rcpt", b"data", b"rset", b"noop", b"vrfy", b"help", b"quit"}
-
-
-def count_hops(wire_or_msg, crlf):
-    """Number of Received / Delivered-To header fields (names in any case mix) before the first empty line."""
-    sep = b"\r\n" if crlf else b"\n"
-    n = 0
-    for line in wire_or_msg.split(sep):
-        if line == b"":
-            break
-        l = alower(line)
-        if l.startswith(b"received:") or l.startswith(b"delivered-to:"):
-            n += 1
-    return n
 
 
 def parse_smtp_replies(out):
@@ -463,11 +475,6 @@ def policy_allows(addr, rcpthosts, more):
         if dom[j] == 46 and dom[j:] in entries:
             return True
     return False
-
-
-def control_lines(entries, comments=False):
-    """Entries -> control file text.  entries may carry trailing blanks (allowed in any control file, qmail-control.5)."""
-    return b"".join(e + b"\n" for e in entries)
 
 
 def effective_entries(entries):
